@@ -30,6 +30,12 @@ pub fn run(args: &Args) -> i32 {
             return;
         };
         case.set_input(&img.bytes);
+        if std::env::var("C05_DEBUG").is_ok() {
+            eprintln!("ec_info: {:?}", img.ih.metadata.ec_info);
+            for (i, f) in img.frames.iter().enumerate() {
+                eprintln!("frame {i}: type {:?} crop {} {}x{}@{},{} dur {} last {} save {} before_ct {} blend {:?} ec {:?}", f.fh.frame_type, f.fh.have_crop, f.fh.width, f.fh.height, f.fh.x0, f.fh.y0, f.fh.duration, f.fh.is_last, f.fh.save_as_reference, f.fh.save_before_ct, f.fh.blending_info, f.fh.ec_blending_info);
+            }
+        }
         let expected = compose(&img);
         // signature
         let types: String = img.frames.iter().map(|f| match f.fh.frame_type { jxlgen::headers::FrameType::Regular => 'R', jxlgen::headers::FrameType::ReferenceOnly => 'F', jxlgen::headers::FrameType::SkipProgressive => 'S', _ => 'L' }).collect();
